@@ -38,7 +38,7 @@ def run(rep, work, tier, seed):
                    ["NoEscape"])
         leg_mutant(rep, work, SPEC, "mutant_spawn_detached",
                    cfg_text(dict(small, Bug="spawn_detached"), spec="Spec", invariants=INVS, properties=PROPS),
-                   ["CancelCascades", "NoOrphans", "SpawnTarget", "DetachedUntouched"])
+                   ["CancelCascades", "NoOrphans", "SpawnTarget", "DetachedUntouched", "NoEscape"])
     leg_r(rep, work, SPEC, f"conf_{tier}", cfg_text(conf, invariants=INVS), ScopeTasksDriver)
     rep.assumptions += [
         "spawned coroutines are gated doubles that obey cancellation at once (a task that swallows cancellation keeps "
